@@ -44,6 +44,7 @@ type Term struct {
 	EscOf   *Term       // URL-escaped strings: the original string
 	EscKind string      // "path" | "query"
 	QueryOf interface{} // encoded query strings: the url.Values they encode (*Map)
+	JSONOf  interface{} // text of an abstract JSON document (*JSON)
 	FromI  *Term      // floats produced exactly from a (<= 32 bit) integer: that integer (KInt)
 	L      *lin       // KInt: linear normal form
 	text   string
